@@ -90,4 +90,35 @@ def applyOp (specs : List (String × Nat × Bool × List (Nat × String))) (h : 
 def runOps (specs : List (String × Nat × Bool × List (Nat × String))) (h : Heap) (ops : List StyleOp) : Heap :=
   ops.foldl (applyOp specs) h
 
+/-! ## Deciders / observables for the hypotheses of the style theorems (Props/C17 `styles_wf_decides`)
+
+`style_noninterference` speaks about "the border style at reference `q`".  That the j-th style a
+history creates owns a reference of its own (a fresh heap object, not a cached instance and not
+the object of an earlier style) is a fact about the real factories; `refsOf` computes these
+references in the model, the harness computes them on the real objects by identity (`is`), and the
+two lists are compared on every generated case. -/
+
+/-- every predefined factory copies the cached instance it starts from -/
+def copiesB (specs : List (String × Nat × Bool × List (Nat × String))) : Bool :=
+  specs.all (fun s => s.2.2.1)
+
+/-- the border-style references of the styles a history creates, in creation order -/
+def refsOf (specs : List (String × Nat × Bool × List (Nat × String))) : Heap → List StyleOp → List Nat
+  | _, [] => []
+  | h, op :: rest =>
+    match op with
+    | .make k =>
+      match specs[k]? with
+      | some s => (makeStyle s h).1 :: refsOf specs (makeStyle s h).2 rest
+      | none => refsOf specs h rest
+    | .custom r i v => refsOf specs (heapSet h r i v) rest
+
+/-- number of factory calls of a history that name an existing factory -/
+def makesOf (specs : List (String × Nat × Bool × List (Nat × String))) (ops : List StyleOp) : Nat :=
+  (ops.filter (fun op => match op with | .make k => decide (k < specs.length) | _ => false)).length
+
+/-- no operation of the history customises the style at reference `q` -/
+def untouchedB (q : Nat) (ops : List StyleOp) : Bool :=
+  ops.all (fun op => match op with | .custom r _ _ => r != q | _ => true)
+
 end Clikit.History
